@@ -21,6 +21,7 @@ import (
 	v3 "github.com/deadsy/sdfx/vec/v3"
 
 	"verif/lib/lattice"
+	"verif/lib/mesh"
 	"verif/lib/vlib"
 )
 
@@ -284,6 +285,13 @@ func ref2(l *lattice.Lat2, s sdf.SDF2) []*sdf.Line2 {
 	return out
 }
 
+func m3e(s sdf.SDF3, err error) sdf.SDF3 {
+	if err != nil {
+		panic(err)
+	}
+	return s
+}
+
 func alignName(a float64) string {
 	switch a {
 	case 0:
@@ -487,6 +495,83 @@ func main() {
 		trans += int64(len(got))
 		atomic.AddInt64(&nontrivial, 1)
 		samples = append(samples, map[string]any{"renderer": "octree", "meshCells": n, "family": "position-coded field", "triangles": len(got)})
+	}
+	// tiny spheres (radius 0.3 and 0.45 cell: smaller than every coarse cube) centred on lattice corners all over a
+	// 32-cell octree lattice, among them the points of coarse cube faces that are farthest from the cube's corner
+	// and centre samples; compared with the per-cell reference (added after seed C07-7)
+	{
+		n := 32
+		S := float64(n)
+		bb := sdf.Box3{Min: v3.Vec{X: -S / 2, Y: -S / 2, Z: -S / 2}, Max: v3.Vec{X: S / 2, Y: S / 2, Z: S / 2}}
+		mk := func() render.Render3 { return render.NewMarchingCubesOctree(n) }
+		l, err := lattice.Discover3(mk(), bb, 0)
+		if err != nil || l.Stride != 2 {
+			c.HarnessError("octree lattice discovery (tiny spheres) n=%d: %v", n, err)
+		} else {
+			cell := l.Cell().X
+			type tj struct {
+				i, j, k int
+				r       float64
+			}
+			var tjs []tj
+			st := vlib.Pick(c, 4, 2)
+			for i := 4; i <= 28; i += st {
+				for j := 4; j <= 28; j += st {
+					for k := 4; k <= 28; k += st {
+						for _, r := range []float64{0.3, 0.45} {
+							tjs = append(tjs, tj{i, j, k, r})
+						}
+					}
+				}
+			}
+			var tr4 int64
+			done4 := c.ParFor(len(tjs), func(ti int) {
+				j := tjs[ti]
+				ctr := l.Corner(j.i, j.j, j.k)
+				rad := j.r * cell
+				s := boxed3{sdf.Transform3D(m3e(sdf.Sphere3D(rad)), sdf.Translate3d(ctr)), bb}
+				got := render.ToTriangles(s, mk())
+				want := ref3(l, s)
+				if a, b := diff(triKeys(got, 1), triKeys(want, 1)); len(a)+len(b) > 0 {
+					c.Violation("octree|tiny-sphere|differs-from-every-finest-cell", fmt.Sprintf("octree n=%d sphere of radius %g cell on lattice corner %d,%d,%d: %d triangles not in the finest-cell reference, %d missing", n, j.r, j.i, j.j, j.k, len(a), len(b)),
+						map[string]any{"renderer": "octree", "meshCells": n, "sphere_radius_cells": j.r, "centre_corner": []int{j.i, j.j, j.k}})
+				}
+				if len(want) > 0 {
+					atomic.AddInt64(&nontrivial, 1)
+				}
+				atomic.AddInt64(&tr4, int64(len(got)))
+			})
+			states += done4
+			trans += tr4
+			samples = append(samples, map[string]any{"renderer": "octree", "meshCells": n, "family": "tiny spheres on lattice corners", "jobs": len(tjs)})
+		}
+	}
+	// large lattices (no full reference possible): a long rod and a sphere at 400-520 cells must come out closed
+	// and reach their own extent (added after seed C07-9)
+	for _, lg := range []struct {
+		name string
+		s    sdf.SDF3
+		n    int
+	}{{"rod 100x3x2", m3e(sdf.Box3D(v3.Vec{X: 100, Y: 3, Z: 2}, 0)), 400}, {"rod 100x3x2", m3e(sdf.Box3D(v3.Vec{X: 100, Y: 3, Z: 2}, 0)), 520}, {"rod 2x100x3", m3e(sdf.Box3D(v3.Vec{X: 2, Y: 100, Z: 3}, 0)), 520}, {"sphere r=10", m3e(sdf.Sphere3D(10)), 256}} {
+		got := render.ToTriangles(lg.s, render.NewMarchingCubesOctree(lg.n))
+		bb := lg.s.BoundingBox()
+		h := bb.Size().MaxComponent() / float64(lg.n)
+		rp := mesh.Check3(got, 1e-6*h)
+		desc := map[string]any{"renderer": "octree", "scene": lg.name, "meshCells": lg.n}
+		if rp.Unbalanced > 0 {
+			c.Violation("octree|large-lattice|mesh-not-closed", fmt.Sprintf("%s n=%d: %d unbalanced directed edges (part of the surface was never visited)", lg.name, lg.n, rp.Unbalanced), desc)
+		}
+		lo, hi := v3.Vec{X: math.Inf(1), Y: math.Inf(1), Z: math.Inf(1)}, v3.Vec{X: math.Inf(-1), Y: math.Inf(-1), Z: math.Inf(-1)}
+		for _, t := range got {
+			for _, p := range t {
+				lo, hi = lo.Min(p), hi.Max(p)
+			}
+		}
+		if len(got) == 0 || lo.X > bb.Min.X+h || lo.Y > bb.Min.Y+h || lo.Z > bb.Min.Z+h || hi.X < bb.Max.X-h || hi.Y < bb.Max.Y-h || hi.Z < bb.Max.Z-h {
+			c.Violation("octree|large-lattice|mesh-does-not-reach-the-extent-of-the-shape", fmt.Sprintf("%s n=%d: mesh spans %v..%v, the shape %v..%v", lg.name, lg.n, lo, hi, bb.Min, bb.Max), desc)
+		}
+		states++
+		trans += int64(len(got))
 	}
 	// analytic 1-Lipschitz shapes
 	m3 := func(s sdf.SDF3, err error) sdf.SDF3 {
